@@ -59,9 +59,18 @@
 //! [`request_resume`]: TransferControl::request_resume
 //! [`advance_to_file`]: TransferControl::advance_to_file
 
+#[cfg(repe_verif)]
+use crate::verif_seam::collections::{HashMap, VecDeque};
+#[cfg(repe_verif)]
+use crate::verif_seam::sync::{Arc, Condvar, Mutex, Weak};
+#[cfg(repe_verif)]
+use crate::verif_seam::time::{Duration, Instant};
+#[cfg(not(repe_verif))]
 use std::collections::{HashMap, VecDeque};
 use std::hash::Hash;
+#[cfg(not(repe_verif))]
 use std::sync::{Arc, Condvar, Mutex, Weak};
+#[cfg(not(repe_verif))]
 use std::time::{Duration, Instant};
 
 use crate::peer::PeerHandle;
@@ -687,6 +696,8 @@ pub fn spawn_watchdog<K>(registry: Arc<TransferRegistry<K>>, idle_timeout: Durat
 where
     K: Hash + Eq + Copy + Send + Sync + 'static,
 {
+    #[cfg(repe_verif)]
+    use crate::verif_seam::std_shim as std;
     let weak = Arc::downgrade(&registry);
     drop(registry);
     std::thread::Builder::new()
@@ -703,6 +714,8 @@ where
     // worst-case kill latency under 2*idle_timeout; the [1 s, 5 s]
     // clamp keeps idle CPU low on big timeouts and bounds the kill
     // floor on tiny ones. With a 60 s default this works out to 5 s.
+    #[cfg(repe_verif)]
+    use crate::verif_seam::std_shim as std;
     let tick = (idle_timeout / 4)
         .min(Duration::from_secs(5))
         .max(Duration::from_secs(1));
